@@ -103,3 +103,78 @@ pub proof fn lits_status()
     assert("1.0"@[0] == '1'); assert("2.0"@[0] == '2');
     assert("disabled"@[0] == 'd'); assert("enforce"@[0] == 'e'); assert("Unknown"@[0] == 'U');
 }
+
+// ---- lemmas about the reported channel state (pure) -----------------------------------------------------------------
+pub proof fn lits_phrases()
+    ensures
+        "WireServer Enforce"@.len() == 18, "WireServer Audit"@.len() == 16, "WireServer Disabled"@.len() == 19,
+        " IMDS Enforce"@.len() == 13, " IMDS Audit"@.len() == 11, " IMDS Disabled"@.len() == 14,
+        "HostGA Enforce"@.len() == 14, "HostGA Audit"@.len() == 12, "HostGA Disabled"@.len() == 15,
+        " - "@.len() == 3,
+        "WireServer Enforce"@[0] == 'W', "WireServer Audit"@[0] == 'W', "WireServer Disabled"@[0] == 'W',
+        "WireServer Enforce"@[11] == 'E', "WireServer Audit"@[11] == 'A', "WireServer Disabled"@[11] == 'D',
+        "disabled"@[0] == 'd',
+{
+    reveal_strlit("WireServer Enforce"); reveal_strlit("WireServer Audit"); reveal_strlit("WireServer Disabled");
+    reveal_strlit(" IMDS Enforce"); reveal_strlit(" IMDS Audit"); reveal_strlit(" IMDS Disabled");
+    reveal_strlit("HostGA Enforce"); reveal_strlit("HostGA Audit"); reveal_strlit("HostGA Disabled");
+    reveal_strlit(" - "); reveal_strlit("disabled");
+}
+
+/// the 2.0 state text starts with the wireserver phrase and has the summed length
+pub proof fn lemma_v2_text_shape(w: Seq<char>, i: Seq<char>, h: Seq<char>)
+    ensures
+        v2_state_text(w, i, h).len() == ws_phrase(w).len() + imds_phrase(i).len() + hostga_phrase(h).len() + 6,
+        v2_state_text(w, i, h)[0] == 'W',
+        v2_state_text(w, i, h)[11] == ws_phrase(w)[11],
+{
+    lits_phrases();
+}
+
+/// 2.0: the channel is reported "disabled" exactly when secureChannelEnabled is not true or the document has no rules
+pub proof fn lemma_v2_disabled_iff(st: KeyStatus)
+    requires is_v2(st),
+    ensures channel_disabled(st) <==> !(st.secureChannelEnabled == Some(true) && st.authorizationRules is Some),  // @C09.status.v2_disabled_iff_not_enabled_or_no_rules
+{
+    lits_phrases();
+    lemma_v2_text_shape(mode_of(st, Endpoint::WireServer), mode_of(st, Endpoint::Imds), mode_of(st, Endpoint::HostGA));
+}
+
+/// a mode word the documentation of AuthorizationItem.mode allows: "disabled, audit, enforce"
+pub open spec fn known_mode(m: Seq<char>) -> bool { m == "disabled"@ || m == "audit"@ || m == "enforce"@ }
+
+/// C09 "whenever the reported channel state changes each endpoint is intercepted exactly when its mode is not disabled":
+/// the code re-programs the redirector only when the state TEXT changes. For two 2.0 documents with the channel enabled and
+/// documented mode words, an unchanged text implies unchanged interception of every endpoint -- so keying the update on the
+/// text loses no change of interception. (Outside these hypotheses it can: see the unit's report.)
+pub proof fn lemma_v2_same_text_same_interception(a: KeyStatus, b: KeyStatus)
+    requires
+        is_v2(a), is_v2(b), !channel_disabled(a), !channel_disabled(b),
+        known_mode(mode_of(a, Endpoint::WireServer)), known_mode(mode_of(a, Endpoint::Imds)),
+        known_mode(mode_of(b, Endpoint::WireServer)), known_mode(mode_of(b, Endpoint::Imds)),
+        sc_state(a) == sc_state(b),
+    ensures
+        forall|e: Endpoint| intercepted(a, e) == intercepted(b, e),  // @C09.status.v2_state_text_determines_interception
+{
+    lits_phrases(); lits_status();
+    lemma_v2_disabled_iff(a); lemma_v2_disabled_iff(b);
+    let (wa, ia, ha) = (mode_of(a, Endpoint::WireServer), mode_of(a, Endpoint::Imds), mode_of(a, Endpoint::HostGA));
+    let (wb, ib, hb) = (mode_of(b, Endpoint::WireServer), mode_of(b, Endpoint::Imds), mode_of(b, Endpoint::HostGA));
+    lemma_v2_text_shape(wa, ia, ha); lemma_v2_text_shape(wb, ib, hb);
+    assert(ha == wa && hb == wb);
+    assert(ws_phrase(wa)[11] == ws_phrase(wb)[11]);
+    assert(wa == wb);
+    assert(imds_phrase(ia).len() == imds_phrase(ib).len());
+    assert(ia == ib);
+    assert forall|e: Endpoint| intercepted(a, e) == intercepted(b, e) by {
+        match e { Endpoint::WireServer => {}, Endpoint::Imds => {}, Endpoint::HostGA => {} }
+    }
+}
+
+/// 1.0: every endpoint is always intercepted (its mode is audit or enforce, never disabled)
+pub proof fn lemma_v1_always_intercepted(st: KeyStatus, e: Endpoint)
+    requires !is_v2(st),
+    ensures intercepted(st, e),  // @C09.status.v1_endpoints_always_intercepted
+{
+    lits_status();
+}
